@@ -102,6 +102,10 @@ Proof. intros; apply exhaust_aux_ids. Qed.
 Theorem exhaust_ids_incl : forall (e : iexpr O) t, incl (tensor_ids (exhaust e t)) (tensor_ids e).
 Proof. intros; apply exhaust_aux_ids. Qed.
 
+Theorem exhaust_removes_and_incl : forall (e : iexpr O) t,
+  ~ In t (tensor_ids (exhaust e t)) /\ incl (tensor_ids (exhaust e t)) (tensor_ids e).
+Proof. intros; split; [apply exhaust_removes | apply exhaust_ids_incl]. Qed.
+
 (** A sparse context is zero wherever all of its sparse leaves read zero. *)
 Theorem sparse_context_sound : forall (e : iexpr O) k ctx sigma,
   extract_context is_zero e k = Some ctx ->
